@@ -390,7 +390,7 @@ fn world_opts(prop: &str, thorough: bool, r: &mut Rng) -> WorldOpts {
         "C13" => WorldOpts { kinds: all.clone(), max_frames: frames, max_scenes: 2, max_objects: 3, twins: false, lifecycle: true, batches: true, rotation: false, constraints: 0, features: true, stress: false, long_life: if thorough { 300 } else { 60 }, lookalikes: false, wide: false, own_area: true, fast: false },
         "C12" => WorldOpts { kinds: vec![Kind::VisualSort, Kind::BatchVisualSort], max_frames: frames, max_scenes: 2, max_objects: 4, twins: false, lifecycle: false, batches: true, rotation: false, constraints: 0, features: true, stress: true, long_life: 0, lookalikes: true, wide: false, own_area: true, fast: false },
         "C02" => WorldOpts { kinds: sort_family, max_frames: frames, max_scenes: 2, max_objects: 5, twins: false, lifecycle: false, batches: true, rotation: true, constraints: 0, features: false, stress: true, long_life: 0, lookalikes: false, wide: false, own_area: false, fast: true },
-        "C20" => WorldOpts { kinds: all.clone(), max_frames: frames, max_scenes: 2, max_objects: 4, twins: false, lifecycle: false, batches: true, rotation: false, constraints: 1, features: true, stress: true, long_life: 0, lookalikes: false, wide: false, own_area: false, fast: true },
+        "C20" => WorldOpts { kinds: all.clone(), max_frames: frames, max_scenes: 2, max_objects: 4, twins: false, lifecycle: false, batches: true, rotation: false, constraints: 2, features: true, stress: true, long_life: 0, lookalikes: false, wide: false, own_area: false, fast: true },
         "C04" => WorldOpts { kinds: all.clone(), max_frames: frames, max_scenes: 4, max_objects: 3, twins: false, lifecycle: true, batches: true, rotation: true, constraints: 1, features: true, stress: true, long_life: 0, lookalikes: false, wide: false, own_area: true, fast: true },
         "C05" => WorldOpts { kinds: all.clone(), max_frames: frames, max_scenes: 3, max_objects: 5, twins: false, lifecycle: true, batches: true, rotation: true, constraints: 1, features: true, stress: true, long_life: 0, lookalikes: false, wide: true, own_area: true, fast: false },
         _ => WorldOpts { kinds: vec![Kind::BatchSort, Kind::BatchSort, Kind::BatchVisualSort], max_frames: frames, max_scenes: 4, max_objects: 3, twins: false, lifecycle: true, batches: true, rotation: true, constraints: 1, features: true, stress: true, long_life: 0, lookalikes: false, wide: true, own_area: true, fast: false },
@@ -420,11 +420,13 @@ impl TrackerEngine {
             }
             "C06" => strip_ops(&mut c, true, true),
             "C05" | "C20" | "C02" => strip_ops(&mut c, false, false),
-            "C12" => {
+            "C12" | "C13" => {
                 // batch kinds are also compared with their simple twin: empty calls (which a batch
                 // request cannot express, and which advance the epoch of a simple tracker) go
                 let batch = c.cfg.kind.is_batch();
-                strip_ops(&mut c, false, batch)
+                // (C13 has lifecycle calls: clear_wasted goes too, as in C06 - what it drops
+                // depends on when the periodic collection ran)
+                strip_ops(&mut c, batch && self.prop == "C13", batch)
             }
             _ => {}
         }
@@ -560,7 +562,7 @@ impl Engine for TrackerEngine {
         // (pipelined batches whose galleries are not observable)
         let differential = matches!(prop, "C04" | "C05" | "C06" | "C20")
             || (prop == "C03" && !variants.is_empty())
-            || (prop == "C12" && tc.cfg.kind.is_batch());
+            || (matches!(prop, "C12" | "C13") && tc.cfg.kind.is_batch());
         // exec 0: the history itself (reference configuration for differentials)
         let mut base = tc.clone();
         if prop == "C05" {
@@ -721,7 +723,7 @@ impl Engine for TrackerEngine {
                     }
                 }
             }
-            "C06" | "C12" => {
+            "C06" | "C12" | "C13" => {
                 // the simple twin is the specification
                 let mut c = base.clone();
                 c.cfg.kind = base.cfg.kind.simple_twin();
@@ -748,7 +750,11 @@ impl Engine for TrackerEngine {
                 let ca = canon(&base, &h0, upto, None, true);
                 let cb = canon(&c, &h, upto, None, true);
                 if let Some((i, d, kind)) = first_diff(&ca.events, &cb.events, false) {
-                    let clause = if prop == "C12" { "batch-decisions-differ-from-simple" } else { "batch-differs-from-simple" };
+                    let clause = match prop {
+                        "C12" => "batch-decisions-differ-from-simple",
+                        "C13" => "batch-histories-differ-from-simple",
+                        _ => "batch-differs-from-simple",
+                    };
                     out.violation = Some(report(prop, clause, "twin", kind,
                         format!("batch tracker ({} distance shards, {} voting threads) and simple tracker differ at event {i}: {d}", base.cfg.shards, base.cfg.voting_shards)));
                     return out;
